@@ -231,6 +231,35 @@ func (in *c09Inst) check(c *mc.Ctx, path []string) {
 			}
 		}
 		icount += countInterchain(res.Meta)
+		// the block's interchain meta speaks of this block's own transactions only: every
+		// listed position is an IBTP transaction of the block with a successful receipt, and
+		// every such transaction is listed
+		if res.Meta != nil && h > in.base {
+			listed := map[int]bool{}
+			for chain, sl := range res.Meta.Counter {
+				for _, vi := range sl.Slice {
+					i := int(vi.Index)
+					if i >= len(b.Transactions.Transactions) {
+						bad("interchain-meta-position-out-of-block", "block %d (%d txs): interchain meta lists position %d for %s", h, len(b.Transactions.Transactions), i, chain)
+						continue
+					}
+					listed[i] = true
+					if !b.Transactions.Transactions[i].IsIBTP() {
+						bad("interchain-meta-lists-non-ibtp", "block %d: interchain meta lists position %d for %s, which is not an IBTP transaction", h, i, chain)
+					}
+				}
+			}
+			if len(res.Receipts) == len(b.Transactions.Transactions) {
+				for i, tx := range b.Transactions.Transactions {
+					if tx.IsIBTP() && res.Receipts[i].IsSuccess() && !listed[i] {
+						bad("accepted-ibtp-not-in-interchain-meta", "block %d: the IBTP at position %d was accepted but the block's interchain meta does not list it", h, i)
+					}
+					if listed[i] && !res.Receipts[i].IsSuccess() {
+						bad("interchain-meta-lists-failed-tx", "block %d: interchain meta lists position %d whose receipt is FAILED", h, i)
+					}
+				}
+			}
+		}
 		live[b.BlockHash.String()] = true
 		if bb, err := l.GetBlockByHash(b.BlockHash, false); err != nil || bb.BlockHeader.Number != h {
 			bad("lookup-by-hash", "GetBlockByHash(hash of %d) = %v, %v", h, bb, err)
